@@ -1056,6 +1056,12 @@ class Models:
         for v in list(vals) + list(dv):
             if isinstance(v, tuple) and v[0] in ("inp", "errors", "slotref", "secref"):
                 if not self.I.spec.pure_callee(f):
+                    # a private helper of the crate that is handed the parser input (an extracted `fn fail_with(inp, ..)`):
+                    # interpret its body in place -- the caller's automaton is the same as with the code written inline
+                    cb = self.local_body_of(f)
+                    if cb is not None and fr.depth < 4 and cb is not fr.body and cb is not getattr(self.I, "cur_root", None):
+                        self.I.stats["helpers_inlined"] = self.I.stats.get("helpers_inlined", 0) + 1
+                        return self.I.run_body(cb, list(vals), fr.st, fr.depth + 1)
                     raise AnalysisError("unmodelled callee %s receives the parser input (unknown effect) in %s line %s"
                                         % (path, fr.body["uname"], line))
         for v in vals:
